@@ -177,6 +177,9 @@ class SerializerBase(object):
         classname = data.get("__class__", "<unknown>")
         if isinstance(classname, bytes):
             classname = classname.decode("utf-8")
+        if not isinstance(classname, str):
+            # (msgpack rebuilds nested class dicts first: the name can be any object by now, and a Proxy would call its daemon when searched)
+            raise errors.SerializeError("invalid class name in serialized class")
         if classname in cls.__custom_dict_to_class_registry:
             converter = cls.__custom_dict_to_class_registry[classname]
             return converter(classname, data)
@@ -195,7 +198,7 @@ class SerializerBase(object):
             uri.__setstate__(state)
             return uri
         elif classname == "Pyro5.client.Proxy":
-            if len(state) > 3 and any(type(member) not in (list, tuple, set, frozenset) for member in state[1:4]):
+            if any(type(member) not in (list, tuple, set, frozenset) for member in state[1:4]):
                 raise errors.SerializeError("invalid state in serialized class: " + classname)
             proxy = client.Proxy.__new__(client.Proxy)
             proxy.__setstate__(state)
@@ -252,6 +255,8 @@ class SerializerBase(object):
         ex = exceptiontype(*args)
         # restore custom attributes on the exception object
         for attr, value in attributes.items():
+            if attr == "args" and type(value) not in (list, tuple):
+                raise errors.SerializeError("invalid args or attributes in serialized exception")   # (assigning args iterates the value)
             setattr(ex, attr, value)
         return ex
 
